@@ -67,16 +67,32 @@ def build(op, n, py, aug):
         exec(f"def f(t, {', '.join(xs)}):\n    {py}\n    return t\n", ns)
         out["python"] = ns["f"]
         return out
-    out["macro"] = hy.eval(hy.read(f"(fn [{' '.join(xs)}] ({op} {' '.join(xs)}))"))
+    def compiled(text):
+        """the function the form compiles to; a form hy rejects becomes a route that raises that error"""
+        try:
+            return hy.eval(hy.read(text))
+        except Exception as x:
+            err = x
+
+            def fail(*a):
+                raise err
+            return fail
+    out["macro"] = compiled(f"(fn [{' '.join(xs)}] ({op} {' '.join(xs)}))")
     out["python"] = eval(f"lambda {', '.join(xs)}: {py}")
     import hy.pyops
     f = getattr(hy.pyops, mangle(op))
     out["pyops"] = f
-    star = hy.eval(hy.read(f"(fn [xs] ({op} #* xs))"))
+    star = compiled(f"(fn [xs] ({op} #* xs))")
     out["star"] = lambda *a: star(list(a))
     if n >= 1:
-        star1 = hy.eval(hy.read(f"(fn [x1 xs] ({op} x1 #* xs))"))
+        star1 = compiled(f"(fn [x1 xs] ({op} x1 #* xs))")
         out["star-tail"] = lambda *a: star1(a[0], list(a[1:]))
+    if n >= 2:
+        # an unpacking between plain arguments, and an empty one
+        star2 = compiled(f"(fn [x1 xs xn] ({op} x1 #* xs xn))")
+        out["star-middle"] = lambda *a: star2(a[0], list(a[1:-1]), a[-1])
+        star3 = compiled(f"(fn [{' '.join(xs)}] ({op} {' '.join(xs[:1])} #* [] {' '.join(xs[1:])}))")
+        out["star-empty"] = star3
     return out
 
 
